@@ -555,7 +555,7 @@ func runConc(run *vkit.Run, idx int) (c *concCase, completed bool) {
 
 func TestConcurrent(t *testing.T) {
 	run := vkit.New("C09", "conc", "exploration")
-	n := run.N(40, 4000)
+	n := run.N(40, 3000)
 	run.SetRule("each evaluation is one concurrent history on one store: 1 writer (with inadmissible puts) or 2 competing writers with different certificates for the same successors, 8 readers, 5 subscribers (eager, slow, never-reading, late, unsubscribing), random yields before every datastore write, call/return stamps from one atomic counter; distinct = distinct (parameters, linearization-relevant history shape); non-trivial = at least 16 accepted puts, reads overlapping puts, and all quiescence checks performed")
 	run.Assume("stamps come from one atomic counter; an operation's effect lies between its call and return stamp",
 		"Get is not part of the linearizability model (the property does not promise it); it is checked for found/immutable only at instances already observed through Latest",
